@@ -42,6 +42,9 @@ open_("C05", "D4", "C05/unparsable-note", [],
 open_("C05", "D27", "C05/path-not-in-commit", [],
       "history: a tracked file named `nl<LF>name.txt` gets one AI line and is committed => the quoted path is written with the raw newline, so the attestation section has two path lines `\"nl` and `name.txt\"`, neither of which exists in the commit",
       "c05.file_name_with_newline", ["name:nl\nname.txt"], affects=["C17"])
+open_("C13", "D28", "C13/lost@f.txt:2", ["C13/lost@f.txt:3"],
+      "history: AI session inserts 2 lines after line 1 of f.txt; `git stash push`; a commit to g.txt; `git stash apply`; commit => in wrapper mode lines 2-3 are AI, with git-ai installed as git hooks (plain git) they are human (`stash pop` keeps them in both modes)",
+      "c13.stash_apply_after_head_moved_in_hooks_mode", ["hooks_stash_apply"], affects=[])
 # ---------------------------------------------------------------- C02
 open_("C02", "D20", "C03/unsound-note@f.txt:12", [],
       "history: feature branch = [person replaces 2 lines of f.txt by 1; AI session S1 modifies line 5 of f.txt]; upstream inserts 2 AI lines after line 1 and then 5 human lines after line 5 of f.txt; `git rebase main` (no conflict) => the rewritten AI commit's note lists line 12 (text written by a person) as S1: the full rebase replay mis-places attributions when upstream changed the same file",
